@@ -514,6 +514,10 @@ fn enum_c07(ctx: &mut Ctx, seed: u64) -> Result<(), String> {
     if let Some(kind) = RealKind::of_container(base.container) {
         if env.ref_bytes.len() < 3000 {
             realfile_truncations(ctx, &base, &env, "C07", kind)?;
+            if kind == RealKind::Plain {
+                // the in-memory pair save_to_mem / load_from_mem (a slice as the reader)
+                realfile_truncations(ctx, &base, &env, "C07", RealKind::Mem)?;
+            }
         }
     }
     Ok(())
